@@ -146,6 +146,20 @@ func (f *Facet[C]) Each(t *testing.T, cases []C) {
 	}
 }
 
+// Fatal reports a violation that cannot be survived in-process (a run that stopped polling and is
+// still burning a goroutine): the replay file is written, the VIOLATION line printed, the evidence
+// flushed and the process ends with status 1 without shrinking.
+func (f *Facet[C]) Fatal(c C, msg string) {
+	raw, _ := json.Marshal(c)
+	f.last = &failure{Property: property, Facet: f.Name, Case: raw, Fail: msg}
+	path := writeReplay(f.last)
+	fmt.Printf("VIOLATION property=%s replay=%s\n", property, path)
+	fmt.Printf("  facet=%s %s\n", f.Name, oneLine(msg, 600))
+	noteViolation()
+	_ = Flush()
+	os.Exit(1)
+}
+
 func (f *Facet[C]) report(t *testing.T) {
 	if f.last == nil {
 		// rapid failed without a recorded case (e.g. generator panic): not a verdict about otto.
